@@ -113,12 +113,22 @@ def source_geometry(src):
         rng = random.Random(src.get("seed", 0))
         rng.shuffle(faces)
         return {"lon": lon, "lat": lat, "faces": faces, "nodes": None, "latint": latint, "name": "latlon"}
+    if src["t"] == "file":
+        # a sample file of the repository (code -> spec direction): geometry is read back from the grid itself
+        ux = hux.import_ux()
+        INT_DTYPE, FILL = hux.consts()
+        g = ux.open_grid(os.path.join(hux.REPO, src["path"]))
+        conn = np.asarray(g.face_node_connectivity.values)
+        faces = [[int(x) for x in row if x != FILL] for row in conn]
+        return {"lon": [float(x) for x in g.node_lon.values], "lat": [float(x) for x in g.node_lat.values], "faces": faces, "nodes": None, "name": src["path"], "path": os.path.join(hux.REPO, src["path"])}
     raise ValueError(src)
 
 
 def build_grid(geo, prov, seed):
     ux = hux.import_ux()
     INT_DTYPE, FILL = hux.consts()
+    if prov == "file":
+        return ux.open_grid(geo["path"])
     lon = np.array(geo["lon"], dtype=float)
     lat = np.array(geo["lat"], dtype=float)
     faces = geo["faces"]
@@ -129,7 +139,7 @@ def build_grid(geo, prov, seed):
         return ux.Grid.from_topology(
             lon, lat, hux.pad_table(faces), fill_value=FILL, edge_node_connectivity=np.array(E, dtype=INT_DTYPE)
         )
-    if prov in ("ugrid", "ugrid_ec"):
+    if prov in ("ugrid", "ugrid_ec", "ugrid_plain"):
         import xarray as xr
 
         w = max(len(f) for f in faces)
@@ -144,6 +154,8 @@ def build_grid(geo, prov, seed):
             "edge_node_connectivity": "Mesh2_edge_nodes",
             "edge_dimension": "nMesh2_edge",
         }
+        if prov == "ugrid_plain":
+            del topo["edge_dimension"]  # optional in the conventions when the dimension order is the default one
         ds = xr.Dataset()
         ds["Mesh2_node_x"] = xr.DataArray(lon, dims=["nMesh2_node"], attrs={"standard_name": "longitude", "units": "degrees_east"})
         ds["Mesh2_node_y"] = xr.DataArray(lat, dims=["nMesh2_node"], attrs={"standard_name": "latitude", "units": "degrees_north"})
@@ -302,7 +314,9 @@ def lat_from_pick(geo, grid, pick, mode):
     z = np.asarray(grid.node_z.values)
     for n in ids:
         probe = np.array([[z[n], 2.0], [z[n], -2.0]])
-        if len(fast_constant_lat_intersections(lat, probe, 2)) != 0:
+        # z != z_parallel: exactly one of the two probe edges straddles, whether the test is strict or not;
+        # z == z_parallel: both products are zero, so none (strict test) or both (non-strict) are reported
+        if len(fast_constant_lat_intersections(lat, probe, 2)) == 1:
             return None  # the implementation's z of the parallel is not this node's z: not judged
     if geo["nodes"] is not None:
         return {"t": "lat", "at": ids[0]}, lat
@@ -497,7 +511,7 @@ def record_case(case):
     import numba
 
     ux = hux.import_ux()
-    rec = {"id": case["id"], "prov": "supplied" if case["prov"] != "derived" else "derived", "err": "", "op": "grid"}
+    rec = {"id": case["id"], "prov": "derived" if case["prov"] in ("derived", "file") else "supplied", "err": "", "op": "grid"}
     info = {"prov": case["prov"]}
     try:
         geo = source_geometry(case["src"])
@@ -515,6 +529,8 @@ def record_case(case):
     rec["srcE"] = srcE
     edge_id = {(min(a, b), max(a, b)): k for k, (a, b) in enumerate(srcE)}
     ctxt = {"src_xyz": unit_xyz(geo["lon"], geo["lat"]), "fresh": fresh, "srcE": srcE, "edge_id": edge_id}
+    if geo["nodes"] is None and len({tuple(np.round(p, 8)) for p in ctxt["src_xyz"]}) != len(ctxt["src_xyz"]):
+        return {"id": case["id"], "_skip": "source has coincident nodes: positions do not identify nodes"}
     rng = random.Random(seed)
     op = case["op"]
     kind = op.get("kind", "face")
@@ -617,6 +633,7 @@ def record_case(case):
         return finish(rec, info, stores, case)
     g2 = out.uxgrid if data else out
     stores.append(store_of(grid))
+    stores.append(store_of(g2))
     order = VARS[case.get("rot", 0) % len(VARS):] + VARS[: case.get("rot", 0) % len(VARS)]
     try:
         res, outcomes, st2, errors = project_grid(g2, ctxt, order, first=case.get("acc", ()))
